@@ -97,7 +97,9 @@ def mk_unwrap_or(okv, badv, mode):
         for s, v in it.fork_variants(st, x, [okv, badv], info['site']):
             if v == okv: outs.append((s, variant_payload(x, okv))); continue
             if mode == 'value': outs.append((s, args[1]))
-            elif mode == 'default': outs.append((s, ('call', 'std::default::Default::default', (info.get('dest_ty') or '',), ())))
+            elif mode == 'default':
+                d = default_of(info.get('dest_ty'))
+                outs.append((s, d if d is not None else ('call', 'std::default::Default::default', (info.get('dest_ty') or '',), ())))
             else:
                 cargs = [] if okv == 'Some' else [variant_payload(x, badv)]
                 outs.extend(it.apply_callable(s, args[1], cargs, info['site']))
@@ -203,6 +205,28 @@ def m_bool_then(it, st, args, info):
 def m_result_err(it, st, args, info):
     x = strip_named(it.deref(st, args[0]))
     return [(s, SOME(variant_payload(x, 'Err')) if v == 'Err' else NONE) for s, v in it.fork_variants(st, x, ['Ok', 'Err'], info['site'])]
+
+def m_option_zip(it, st, args, info):
+    x = strip_named(it.deref(st, args[0])); y = strip_named(it.deref(st, args[1]))
+    outs = []
+    for s, v in it.fork_variants(st, x, ['Some', 'None'], info['site']):
+        if v == 'None': outs.append((s, NONE)); continue
+        for s2, w in it.fork_variants(s, y, ['Some', 'None'], info['site']):
+            outs.append((s2, SOME(('tup', (variant_payload(x, 'Some'), variant_payload(y, 'Some')))) if w == 'Some' else NONE))
+    return outs
+
+def default_of(ty):
+    ty = (ty or '').strip()
+    if ty in ('cosmwasm_std::Uint128', 'u128', 'u64', 'u32', 'usize', 'i32', 'i64', 'i128', 'u8', 'u16', 'rust_decimal::Decimal'): return C(0)
+    if ty == 'std::string::String': return C('')
+    if ty == 'bool': return FALSE
+    if ty.startswith('std::vec::Vec<'): return ('vec', ())
+    if ty.startswith('std::option::Option<'): return NONE
+    return None
+
+def m_default(it, st, args, info):
+    d = default_of(info.get('dest_ty') or (info['targs'][0] if info.get('targs') else ''))
+    return d
 
 def m_option_or(it, st, args, info):
     x = strip_named(it.deref(st, args[0]))
@@ -579,6 +603,8 @@ EXACT = {
     'std::option::Option::<T>::take': m_option_take,
     'std::option::Option::<T>::replace': m_option_replace,
     'std::option::Option::<T>::or': m_option_or,
+    'std::option::Option::<T>::zip': m_option_zip,
+    'std::default::Default::default': m_default,
     'core::bool::<impl bool>::then_some': m_bool_then_some,
     'core::bool::<impl bool>::then': m_bool_then,
     'std::result::Result::<T, E>::err': m_result_err,
